@@ -25,6 +25,7 @@
 -/
 import LemoModel.Ledger
 import LemoProofs.Lemmas.LedgerReward
+import LemoProofs.Lemmas.LedgerNonNeg
 namespace LemoProofs.C01
 open LemoModel.Ledger
 
@@ -414,12 +415,67 @@ theorem refund_order_irrelevant (c : Ctx) (r2 : List Nat) (h : c.rf.refunds.Perm
 /-- **mineBlock_eq_validateBlock**: for ALL parent states, candidate lists, heights (reward blocks included) and
     reward facts: the validator path over the miner's selection — with any gas pool at least as large — accepts the
     block and ends in exactly the miner's state with the miner's gas total. Miner and validator run the same
-    `Finalize` on the same post-transaction state (`mine_eq_validate`). -/
+    `Finalize` on the same post-transaction state (`mine_eq_validate`).
+    CONDITIONAL ON EQUAL FACTS: one context `c` (deputy flags, term record, term reward, refund list) serves both sides.
+    In the code these facts are read from node-local data (deputynode.Manager, the STABLE candidate cache behind
+    LoadRefundCandidates, the stable asset index); the two open C01 findings (…/refund-list-from-locally-stable-candidates,
+    …/asset-tx-needs-locally-stable-asset) are exactly two nodes holding UNEQUAL facts — outside this theorem, inside the
+    two-node oracle scenarios. -/
 theorem mineBlock_eq_validateBlock (c : Ctx) (txs : List Tx) (s : St) (gp k : Nat) (addrs : List Nat) :
     validateBlock c s (gp + k) (mineSel c s gp txs) addrs =
       some ((mineBlock c s gp txs addrs).1, (mineBlock c s gp txs addrs).2.2.2) := by
   obtain ⟨k', hk'⟩ := mine_eq_validate c txs s gp k
   unfold validateBlock mineBlock
   simp only [hk']
+
+/-- **refund_panic_order_irrelevant**: whether the refund loop of a reward block panics (insufficient deposit pool) does
+    not depend on the order of the refund list either: for a duplicate-free list of accounts with recorded non-negative
+    deposits it panics iff the pool does not cover their sum (`LedgerNonNeg.refundPanics_iff`). -/
+theorem refund_panic_order_irrelevant (c : Ctx) (s : St) (l1 l2 : List Nat) (h : l1.Perm l2)
+    (hok : LemoProofs.LedgerNonNeg.RefundListOk c s l1) (hp : 0 ≤ (s.accts c.p.pool).bal) :
+    refundPanics c s l1 = refundPanics c s l2 :=
+  LemoProofs.LedgerNonNeg.refundPanics_perm c s l1 l2 h hok hp
+
+/-! ### the per-transaction arguments the two paths compute differently
+
+  `applyTx(gp, header, tx, txIndex, blockHash, …)`: the miner path passes `txIndex = len(selectedTxs)` and
+  `blockHash = common.Hash{}`, the validator path `txIndex = i` (position in the block) and `blockHash = header.Hash()`.
+  Both only flow into `NewEVMContext` (event records, BLOCKHASH) — no handler of the modelled kinds reads them, which is
+  why `applyTx` of the model has no such parameters. What CAN be stated: the index is the same number on both paths. -/
+
+/-- the miner's selection together with the txIndex every executed candidate was given (`len(selectedTxs)` so far) -/
+def mineSelIdx (c : Ctx) : St → Nat → Nat → List Tx → List (Tx × Nat × Nat)
+  | _, _, _, [] => []
+  | s, gp, k, t :: ts =>
+    if gp < LemoGen.Gas.OrdinaryTxGas then []
+    else
+    match applyTx c s gp t with
+    | .error (_, gp') => mineSelIdx c s gp' k ts
+    | .ok (s1, gp1, g1) => (t, g1, k) :: mineSelIdx c s1 gp1 (k + 1) ts
+
+/-- **miner_txIndex_eq_position**: the txIndex the miner path gives the i-th tx of the block it builds is i — the index
+    the validator path (`for i, tx := range txs`) gives it; discarded candidates do not consume an index. (The blockHash
+    argument DOES differ — empty on the miner path — and is visible to EVM event records only: outside the ledger kinds.) -/
+theorem miner_txIndex_eq_position (c : Ctx) : ∀ (txs : List Tx) (s : St) (gp k : Nat),
+    (mineSelIdx c s gp k txs).map (fun x => (x.1, x.2.1)) = mineSel c s gp txs ∧
+    (mineSelIdx c s gp k txs).map (fun x => x.2.2) = List.range' k (mineSel c s gp txs).length := by
+  intro txs
+  induction txs with
+  | nil => intro s gp k; simp [mineSelIdx, mineSel]
+  | cons t ts ih =>
+    intro s gp k
+    unfold mineSelIdx mineSel
+    by_cases hg : gp < LemoGen.Gas.OrdinaryTxGas
+    · simp [hg]
+    · simp only [hg, if_false]
+      cases ha : applyTx c s gp t with
+      | error e =>
+        obtain ⟨e, gp'⟩ := e
+        exact ih s gp' k
+      | ok r =>
+        obtain ⟨s1, gp1, g1⟩ := r
+        obtain ⟨i1, i2⟩ := ih s1 gp1 (k + 1)
+        simp only [List.map_cons, List.length_cons, i1, i2]
+        exact ⟨trivial, by rw [List.range'_succ]⟩
 
 end LemoProofs.C01
